@@ -1,6 +1,7 @@
 package rules
 
 import (
+	"os"
 	"go/constant"
 	"go/token"
 	"go/types"
@@ -210,4 +211,127 @@ func (s *schema) reachableFrom(root string) (map[string]bool, [][]string) {
 	}
 	walk(root)
 	return seen, cycles
+}
+
+// canonTag renders the constraint content of an aper tag independent of the
+// order of its parts.
+func canonTag(raw string) string {
+	if raw == "" {
+		return ""
+	}
+	parts := strings.Split(raw, ",")
+	sort.Strings(parts)
+	return strings.Join(parts, ",")
+}
+
+func shortType(t types.Type) string {
+	return types.TypeString(t, func(p *types.Package) string { return p.Name() })
+}
+
+// schemaRows: "Type.Field" -> "<canonical tag>|<Go type>" for every struct field of
+// ngapType, "Type" -> "#fields" and "const:Name" -> value for every integer constant.
+func schemaRows(s *schema) map[string]string {
+	rows := map[string]string{}
+	for _, n := range s.Order {
+		t := s.Types[n]
+		rows[n] = "#" + strconv.Itoa(len(t.Fields))
+		for _, f := range t.Fields {
+			rows[n+"."+f.Name] = strconv.Itoa(f.Index) + "|" + canonTag(f.Tag.Raw) + "|" + shortType(f.Type)
+		}
+	}
+	for k, v := range s.Consts {
+		rows["const:"+k] = strconv.FormatInt(v, 10)
+	}
+	return rows
+}
+
+// SchemaDump prints the Go source of the frozen schema table (developer aid).
+func SchemaDump(c *core.Ctx) {
+	rows := schemaRows(buildSchema(c))
+	var keys []string
+	for k := range rows {
+		keys = append(keys, k)
+	}
+	sort.Strings(keys)
+	println("rows", len(keys))
+	var sb strings.Builder
+	sb.WriteString("package rules\n\n// T-38413-SCHEMA: the ASN.1 constraint metadata of TS 38.413 (Rel-15) as the library's ASN.1\n// compiler transcribed it into ngapType: per struct the number of fields, per field its\n// position, constraint tag (canonical part order) and Go type, and every integer constant\n// (enumerators, Present indices, IE ids, procedure codes, criticalities). Frozen from the\n// pinned tree after R3.tag found all 1431 structs internally consistent and R3.types found the\n// emulator-path types equal to the standard. One row per line: key<TAB>value.\nconst frozenSchema = `\n")
+	for _, k := range keys {
+		sb.WriteString(k + "\t" + rows[k] + "\n")
+	}
+	sb.WriteString("`\n")
+	os.Stdout.WriteString(sb.String())
+}
+
+// r3schema: the constraint metadata the codec consumes is the frozen TS 38.413 schema.
+func r3schema(c *core.Ctx, s *schema) {
+	if !c.Once("r3schema") {
+		return
+	}
+	const R = "R3.schema"
+	c.Rule(R, "every struct of ngapType has the fields, field order, constraint tags and Go types, and every constant the value, of the frozen TS 38.413 schema table (T-38413-SCHEMA)")
+	want := map[string]string{}
+	for _, line := range strings.Split(frozenSchema, "\n") {
+		if i := strings.IndexByte(line, '\t'); i > 0 {
+			want[line[:i]] = line[i+1:]
+		}
+	}
+	got := schemaRows(s)
+	var keys []string
+	for k := range want {
+		keys = append(keys, k)
+	}
+	sort.Strings(keys)
+	bad, n := 0, 0
+	posOf := func(k string) token.Pos {
+		k = strings.TrimPrefix(k, "const:")
+		tn, fn := k, ""
+		if i := strings.IndexByte(k, '.'); i > 0 {
+			tn, fn = k[:i], k[i+1:]
+		}
+		if t := s.Types[tn]; t != nil {
+			for _, f := range t.Fields {
+				if f.Name == fn {
+					return f.Pos
+				}
+			}
+			return t.Pos
+		}
+		if o := s.pkg.Scope().Lookup(tn); o != nil {
+			return o.Pos()
+		}
+		return token.NoPos
+	}
+	for _, k := range keys {
+		n++
+		g, ok := got[k]
+		switch {
+		case !ok:
+			bad++
+			c.Fail(R, "ngapType."+k, posOf(k), "%s of the TS 38.413 schema is missing from ngapType", k)
+		case g != want[k]:
+			bad++
+			c.Fail(R, "ngapType."+k, posOf(k), "%s is %q; the TS 38.413 schema has %q (position|constraints|type resp. value): the encoding of every value of this type changes", k, g, want[k])
+		}
+	}
+	// a field added to an existing struct changes its SEQUENCE preamble / CHOICE index range
+	var extra []string
+	for k := range got {
+		if _, ok := want[k]; !ok && !strings.HasPrefix(k, "const:") {
+			if i := strings.IndexByte(k, '.'); i > 0 {
+				if _, known := want[k[:i]]; known {
+					extra = append(extra, k)
+				}
+			}
+		}
+	}
+	sort.Strings(extra)
+	for _, k := range extra {
+		bad++
+		c.Fail(R, "ngapType."+k, posOf(k), "field %s is not part of the TS 38.413 schema of its type", k)
+	}
+	if bad == 0 {
+		c.Ok(R, "ngapType:all-rows", token.NoPos, strconv.Itoa(n)+" rows equal")
+	}
+	c.Floor(R, n, 5630)
 }
